@@ -116,6 +116,17 @@ func gen(t *rapid.T) Case {
 		// as 1e30): it is no oracle for such texts, so the differential spells every parameter (the reference-formula cases
 		// and C08/C10/C20 do rely on the defaults)
 		c.Src.OmitDefaults, c.Dst.OmitDefaults = false, false
+		// a +towgs84 clause written next to a named datum (of another number of terms than the name's own, or the same):
+		// the name's table entry replaces the clause
+		for _, d := range []*projkit.Def{&c.Src, &c.Dst} {
+			if d.DatumKind == "name" && rapid.IntRange(0, 3).Draw(t, "clausenexttoname") == 1 {
+				n := rapid.SampledFrom([]int{3, 7}).Draw(t, "clauseterms")
+				d.Towgs = make([]float64, n)
+				for i := range d.Towgs {
+					d.Towgs[i] = float64(rapid.IntRange(-200, 200).Draw(t, "clauseterm")) / 4
+				}
+			}
+		}
 		// the input in source coordinates is obtained from the WGS84 position with the code under test (it only has to
 		// be a point of the region; both implementations then get the same numbers)
 		if c.Src.Proj == "longlat" && (c.Src.Axis == "" || c.Src.Axis == "enu") {
